@@ -147,6 +147,9 @@ func genNoisyStream(c *hx.Ctx, o *hx.Outcome) (segs []gnss.Segment, wire []byte,
 		opts.MaxSegs, opts.LongOneIn = 14, 3
 	}
 	segs = gnss.GenStream(t, opts)
+	if b := genBulk(c, o); b != nil {
+		segs = b
+	}
 	// byzantine frames
 	if t.SBool(1, 5) {
 		k := t.S(len(segs) + 1)
@@ -177,6 +180,22 @@ func genNoisyStream(c *hx.Ctx, o *hx.Outcome) (segs []gnss.Segment, wire []byte,
 		}
 	}
 	return
+}
+
+// genBulk: now and then the stream is a very long alternation of tiny junk runs
+// and tiny frames — hundreds, thousands or (rarely) more than 2^16 of them:
+// counters and buffers that only misbehave after a long history.
+func genBulk(c *hx.Ctx, o *hx.Outcome) []gnss.Segment {
+	oneIn := 400
+	if c.Thorough() {
+		oneIn = 150
+	}
+	if !c.T.SBool(1, oneIn) {
+		return nil
+	}
+	n := []int{300, 4200, 20000, 140000}[c.T.SW(4, 3, 2, 1)]
+	o.Probe(fmt.Sprintf("bulk-stream-%d-segments", n))
+	return gnss.GenBulk(c.T, n)
 }
 
 func sampleOf(segs []gnss.Segment, wire []byte, faults []gnss.LineFault, cfg pipeCfg) map[string]any {
@@ -287,6 +306,12 @@ func runC01(c *hx.Ctx) *hx.Outcome {
 			checkSingleFrame(o, v)
 			// zero-length and reserved-bit variants with consistent CRC
 			checkSingleFrame(o, gnss.ByzantineFrame(c.T).Bytes)
+			// the frame followed by arbitrary bytes, and very short buffers
+			tailN := 1 + c.T.S(12)
+			checkSingleFrame(o, append(append([]byte{}, f...), c.T.SBytes(tailN)...))
+			checkSingleFrame(o, f[:1+c.T.S(min(6, len(f)))])
+			// another frame directly behind it
+			checkSingleFrame(o, append(append([]byte{}, f...), f...))
 		}
 		// the bytes as they appear on the wire after faults
 		if pos < len(wire) {
@@ -395,6 +420,9 @@ func genCleanStream(c *hx.Ctx, o *hx.Outcome, minFrames int) []gnss.Segment {
 		opts.MaxSegs, opts.LongOneIn = 14, 3
 	}
 	segs := gnss.GenStream(c.T, opts)
+	if b := genBulk(c, o); b != nil && minFrames <= 1 {
+		segs = b
+	}
 	for _, sg := range segs {
 		if sg.Kind == gnss.KindFrame {
 			l := len(sg.Bytes) - 6
@@ -472,7 +500,7 @@ func runC03(c *hx.Ctx) *hx.Outcome {
 	compareExpected(o, "C03", pr, gnss.Expected(segs))
 	o.Nontrivial = len(pr.msgs) > 0
 	// truncation of the last frame at every byte position (short last frames)
-	if n := len(segs); n > 0 && segs[n-1].Kind == gnss.KindFrame && len(segs[n-1].Bytes) <= 48 && o.Class == "" && c.T.SBool(1, 3) {
+	if n := len(segs); n > 0 && segs[n-1].Kind == gnss.KindFrame && len(segs[n-1].Bytes) <= 48 && len(wire) <= 4096 && o.Class == "" && c.T.SBool(1, 3) {
 		last := segs[n-1].Bytes
 		o.Fault("truncate-last-frame-at-every-byte")
 		for k := 1; k < len(last); k++ {
@@ -536,7 +564,7 @@ func runC12(c *hx.Ctx) *hx.Outcome {
 		}
 		return true
 	}
-	if len(orig) <= limit && t.SBool(1, 2) {
+	if len(orig) <= limit && len(gnss.Concat(segs)) <= 4096 && t.SBool(1, 2) {
 		// enumerate every single-bit flip in payload and CRC
 		o.Fault("victim:every-single-bit-flip")
 		for bit := 24; bit < len(orig)*8; bit++ {
@@ -632,8 +660,18 @@ func runC07(c *hx.Ctx) *hx.Outcome {
 	if pr.verdict == rt.Budget || pr.closedSeen == 0 {
 		o.Fail("C07/hang", "pipeline did not finish: verdict %s, %d steps, live %v", pr.verdict, pr.steps, pr.live)
 	}
-	// single-frame decoding of every segment, too
+	// single-frame decoding of every segment, too — exactly, followed by other
+	// bytes (a caller's buffer may run on past the frame), doubled, and cut short
+	var bufs [][]byte
 	for _, sg := range segs {
+		f := sg.Bytes
+		bufs = append(bufs, f)
+		if sg.Kind == gnss.KindFrame && len(f) > 0 {
+			bufs = append(bufs, append(append([]byte{}, f...), c.T.SBytes(1+c.T.S(16))...), append(append([]byte{}, f...), f...), f[:1+c.T.S(len(f))])
+		}
+	}
+	for _, buf := range bufs {
+		sg := gnss.Segment{Bytes: buf}
 		h := rtcm.New(startTime, level)
 		m, _, pan := safeGetMessage(h, append([]byte(nil), sg.Bytes...))
 		if pan != "" {
